@@ -158,7 +158,19 @@ def check(model, rep, tier):
   pname = tf.params()[0]
   insts = [c for c in ast.walk(tf.node) if isinstance(c, ast.Call) and isinstance(
       c.func, ast.Attribute) and c.func.attr == 'instantiate']
-  kw = {k.arg: tpl.xnorm(tf, k.value, c) for c in insts for k in c.keywords}
+  # arguments by the parameter they bind (keyword or position)
+  from sa import inline as _inl
+  inst_fn = model.func(TR, '_PythonFnFactory.instantiate')
+  kw = {}
+  for c in insts:
+    bound_ = _inl._bind(inst_fn.node, c, True)
+    if bound_ is None:
+      kw = None
+      break
+    for k_, v_ in bound_.items():
+      if any(v_ is a_ for a_ in c.args) or any(v_ is k2.value for k2 in c.keywords):
+        kw[k_] = tpl.xnorm(tf, v_, c)
+  kw = kw or {}
   want = {'globals_': pname + '.__globals__', 'closure': pname + '.__closure__ or ()',
           'defaults': pname + '.__defaults__',
           'kwdefaults': "getattr(%s, '__kwdefaults__', None)" % pname}
